@@ -21,6 +21,7 @@ static char samples[6][400];
 static int n_samples;
 static char last_problem[512];
 int c14_last_n_errors;
+int c14_last_error_lines[8];
 
 static uint64_t h64 (const unsigned char *p, size_t n)
 {
@@ -91,6 +92,7 @@ int c14_check_text (const char *text)
   n_exec++;
   if (n_programs < 0 || n_errors < 0) problem (text, "counts not set: n_programs=%ld n_errors=%ld", n_programs, n_errors);
   if ((ret == -1) != (n_errors > 0) || (ret != 0 && ret != -1)) problem (text, "return value %ld with %ld error records", ret, n_errors);
+  for (i = 0; i < n_errors && i < 8; i++) c14_last_error_lines[i] = errors[i] ? errors[i]->line_number : -1;
   for (i = 0; i < n_errors; i++) {
     if (!errors[i]) problem (text, "error record %ld is NULL (of %ld)", i, n_errors);
     if (!errors[i]->source || !errors[i]->text) problem (text, "error record %ld has a NULL source/text", i, 0);
